@@ -35,7 +35,7 @@ def prop(pid, rules, explanation, level, note, technique, design_ref, assumption
 
 prop('C01',
      [PD.pd1, PD.pd2, PD.pd3, PD.pd4, PD.pd5, PD.pd8, SC.pd6, MI.pd0, MI.tx1, MI.df1, OK.ok4, EM.em1, AB.ab1, LS.ls1, LS.ls1_ml, LS.ls1_shell, LS.ls1w, AB.ab3, R2.okv,
-      T.sp3],
+      T.sp3, R4.pd9],
      'inductive argument from static rules: tokens outside the scanner are pinned, '
      'single-character or faithful copies (PD1, PD2, SP3), pinned positions are never shifted '
      'or spread (PD3, PD4), shared tokens are never re-stamped (PD5), the error mark is used '
@@ -53,7 +53,7 @@ prop('C01',
      'DESIGN.md 3.1, 3.2, 4 C01')
 
 prop('C02',
-     [SC.pd6, PD.pd1, PD.pd3, PD.pd4, PD.pd5, PD.pd8, MI.pd0, MI.tx1, T.sp3, LS.ls1, LS.ls1_ml, AB.ab3, R3.rs1],
+     [SC.pd6, PD.pd1, PD.pd3, PD.pd4, PD.pd5, PD.pd8, MI.pd0, MI.tx1, T.sp3, LS.ls1, LS.ls1_ml, AB.ab3, R3.rs1, LS.ls1_shell],
      'copied text keeps its own offset: argument tokens are moved, never rewritten (PD5); a '
      'shortened token advances its position by the removed prefix, only if unpinned (PD4, '
      'PD3); replaced sequences are copy-form tokens at the position of the sequence (PD1, '
@@ -80,7 +80,7 @@ prop('C03',
      'DESIGN.md 3.8 (DT1, EX1), 3.4 (DF1), 4 C03')
 
 prop('C04',
-     [PD.pd1, PD.pd2, PD.pd3, PD.pd5, PD.pd8, MI.pd0, ST.pd7, AB.ab1, AB.ab3],
+     [PD.pd1, PD.pd2, PD.pd3, PD.pd5, PD.pd8, MI.pd0, ST.pd7, AB.ab1, AB.ab3, R4.pd9, C9.sb1],
      'every generated token is pinned (PD1), re-stamped tokens are pinned (PD2), and bodies, '
      'defaults, glossary and cleveref replacements are copied before they are stamped (PD5)',
      'decides that generated text cannot spread or be re-mapped by a later use; not decided: '
@@ -106,7 +106,7 @@ prop('C05',
      'DESIGN.md 3.8 (AC1, AC2), 4 C05')
 
 prop('C06',
-     [T.sp1, T.sp2, T.sp3, T.ix4, MI.pd0, SC.sp4, SC.pd6, R3.ix15, R3.ac3, PD.pd1, PD.pd5, R3.sc7],
+     [T.sp1, T.sp2, T.sp3, T.ix4, MI.pd0, SC.sp4, SC.pd6, R3.ix15, R3.ac3, PD.pd1, PD.pd5, R3.sc7, R4.nl1, ST.ls2p],
      'static table and dispatch rules: the special-sequence table equals the documented one '
      'and contains nothing else that plain prose could hit (SP1), values are never longer '
      'than keys (SP3), longest match (SP2), tables well-formed (IX4)',
@@ -208,7 +208,7 @@ prop('C12',
      'DESIGN.md 3.2, 4 C12')
 
 prop('C13',
-     [LS.ls1, AB.ab3, R2.okv, RX.rp1, R2.ps5, R3.rp2, R3.rx5],
+     [LS.ls1, AB.ab3, R2.okv, RX.rp1, R2.ps5, R3.rp2, R3.rx5, R4.rx6, MO.ln1, LS.ls1_ml],
      'equal lengths after substitution for every combination of shorter / equal / longer '
      'replacement (LS1 on substitute and replace_phrases)',
      'decides the equal-length clause; more clauses follow',
@@ -217,7 +217,7 @@ prop('C13',
      'DESIGN.md 3.2, 4 C13')
 
 prop('C14',
-     [OK.ok1, OK.ok2, OK.ok4, R2.th3, R2.okv, LS.ls1_shell, AB.ab2, MI.oks, PS.ps1, R3.ok6, R3.ml7, R3.ix13],
+     [OK.ok1, OK.ok2, OK.ok4, R2.th3, R2.okv, LS.ls1_shell, AB.ab2, MI.oks, PS.ps1, R3.ok6, R3.ml7, R3.ix13, R2.cm2, R4.ml9],
      'the chain part offset -> total offset -> LaTeX offset -> line / column: every match of a '
      'part is shifted once by the text accumulated before it (OK2), the accumulated text and map '
      'stay in lock step incl. delimiter padding (LS1s), map entries are read through abs() and '
@@ -233,7 +233,7 @@ prop('C14',
      'DESIGN.md 3.2, 4 C14')
 
 prop('C15',
-     [TJ.tj1, TJ.tj2, TJ.tj3, AB.ab2, MI.oks, R2.okv, R3.ix13],
+     [TJ.tj1, TJ.tj2, TJ.tj3, AB.ab2, MI.oks, R2.okv, R3.ix13, R4.tj4, R4.tj5, R4.th8, OK.ok1, R4.en2],
      'every access to answer data is type-checked through json_get or validated at source '
      '(TJ1, interprocedural taint from JSONDecoder.decode through parameters, callbacks, '
      'tuples and attributes), decoding is guarded (TJ2), the error path is one diagnostic and '
@@ -247,7 +247,7 @@ prop('C15',
      'DESIGN.md 3.4, 3.2 (AB2), 4 C15')
 
 prop('C16',
-     [TH.th1, TH.th2, R2.th3, R2.th4, R2.cm2, MO.ln1, R3.rx5, R3.ix13, R3.cm3, R3.th6],
+     [TH.th1, TH.th2, R2.th3, R2.th4, R2.cm2, MO.ln1, R3.rx5, R3.ix13, R3.cm3, R3.th6, R4.th8, OK.ok2, R4.ps6, R4.th7],
      'escaping exactly once for all sources the property names, by a three-valued taint '
      '(raw / escaped-or-markup / mixed) through concatenations, helper functions, re.sub '
      'callbacks and result tuples; protect_html checked as a table (TH1); each match '
@@ -308,7 +308,7 @@ prop('C20',
      'DESIGN.md 3.8 (CK1-CK3), 3.2 (AB4), 4 C20')
 
 prop('C17',
-     [PS.ps1, PS.ps2, PS.ps3, R2.ps5],
+     [PS.ps1, PS.ps2, PS.ps3, R2.ps5, R4.ps6],
      'nothing reachable from the per-document entry points writes to an object that outlives '
      'the call: whole-program field-based may-alias analysis of persistent allocation sites '
      '(module level, class level, default arguments, cache decorators) against every in-place '
